@@ -328,7 +328,11 @@ def accept_oracle(case, impl):
     # ---- hidden only when nothing visible matches
     if any_visible and any(h for _, h in cands):
         return "hidden candidates offered although a visible one matches"
-    # ---- completeness: visible options / subcommands with a spelling extending the word
+    # ---- completeness: visible options / subcommands with a spelling extending the (well-formed) word
+    try:
+        word.decode("utf-8")
+    except UnicodeDecodeError:
+        return None
     for a in level["args"]:
         if a["hidden"] or "positional" in a["flags"]:
             continue
@@ -529,7 +533,8 @@ def fixed_commands():
         arg(b"pos", "(flags hyphen)"), sub1, hid_sub)
     c2 = "(cmd %s %s %s %s %s)" % (
         h(b"p"),
-        arg(b"opt", long(b"opt"), short("o"), "(action set)", "(num 0 1)", "(x-pv (%s v) (%s h))" % (h(b"va"), h(b"vh"))),
+        arg(b"opt", long(b"opt"), short("o"), "(action set)", "(num 0 1)", "(delim 44)",
+            "(x-pv (%s v) (%s h))" % (h(b"va"), h(b"vh"))),
         arg(b"two", long(b"two"), short("t"), "(action set)", "(num 2 2)"),
         arg(b"flag", long(b"flag"), short("f"), "(action count)", "(flags hide)"),
         arg(b"pos", "(num 1 3)", "(x-pv (%s v) (%s v))" % (h(b"va"), h(b"sub"))))
@@ -561,7 +566,7 @@ def fixed_commands():
 
 ALPHABET = [b"", b"-", b"--", b"--opt", b"--opt=", b"--opt=v", b"--optv", b"--opth", b"--unknown", b"-o", b"-ov", b"-o=v",
             b"-f", b"-fo", b"-x", b"-1", b"v", b"sub", b"sh", b"hid", b"=", b"\xff", b"-f\xff", b"--two", b"--fl", b"s",
-            b"va", b"--sopt", b"-S", b"help"]
+            b"va", b"--sopt", b"-S", b"help", b"va,v", b"--opt=va,"]
 
 
 def gen_states(rng, tier, mode, maxlen_full, nrandom):
